@@ -224,20 +224,21 @@ pub fn build_library(rng: &mut Rng, n_wat: usize, with_wit: bool) -> Vec<LibPkg>
 }
 
 pub fn build_library_from(rng: &mut Rng, n_wat: usize, with_wit: bool, imports: Vec<(&'static str, Shape)>) -> Vec<LibPkg> {
-<<<<<<< HEAD
-    build_library_sel(rng, n_wat, LibSel { wit: with_wit, ..Default::default() }, imports)
+    build_library_sel_focus(rng, n_wat, LibSel { wit: with_wit, ..Default::default() }, imports, &[])
 }
 
 pub fn build_library_sel(rng: &mut Rng, n_wat: usize, sel: LibSel, imports: Vec<(&'static str, Shape)>) -> Vec<LibPkg> {
-=======
-    build_library_focus(rng, n_wat, with_wit, imports, &[])
+    build_library_sel_focus(rng, n_wat, sel, imports, &[])
 }
 
 /// as `build_library_from`; three packages in four import one name of the `focus` family (the
 /// versions of one interface on one semver track), so that most plans leave several versions of
 /// that track unsatisfied
 pub fn build_library_focus(rng: &mut Rng, n_wat: usize, with_wit: bool, imports: Vec<(&'static str, Shape)>, focus: &[(&'static str, Shape)]) -> Vec<LibPkg> {
->>>>>>> agent-gen4
+    build_library_sel_focus(rng, n_wat, LibSel { wit: with_wit, ..Default::default() }, imports, focus)
+}
+
+fn build_library_sel_focus(rng: &mut Rng, n_wat: usize, sel: LibSel, imports: Vec<(&'static str, Shape)>, focus: &[(&'static str, Shape)]) -> Vec<LibPkg> {
     let mut lib = Vec::new();
     let exports = export_pool();
     for i in 0..n_wat {
